@@ -1,32 +1,40 @@
 (* C11  Untrusted bytes and query text never crash or hang the process.
    Statements only; each is closed by [exact] of a lemma from Proofs/.
-   The model (Model/ZngSafe.v) covers the ZNG reader's framing, typedef,
-   value-header and type-id arithmetic with a Panic outcome at every Go slice
-   bound / index; [checked = false] is the code as it is. *)
+   The model (Model/ZngSafe.v, [zng_parse]) covers the ZNG reader's framing,
+   typedef, value-header and type-id arithmetic of /repo HEAD, with a Panic
+   outcome at every Go slice bound / index, for the synchronous scanner with
+   validation off.  LZ4 is an arbitrary function. *)
 From ZV Require Import Base.Prelude Model.ZngSafe Proofs.ZngSafeProofs.
 Local Open Scope Z_scope.
 
-(* The full statement "no input makes the ZNG reader panic" is FALSE for the
-   code as it is: three 13-byte inputs, one per unguarded site
-   (newBuffer(size<0), buffer.read(n<0), MapperLookupCache.Lookup(id<0)).
-   The harness confirms each witness against the real reader. *)
-Theorem C11_zng_no_panic_refuted :
-  (exists b, List.length b = 13%nat /\ read_comp_header false mib 91 (tl b) = RPanic) /\
-  (exists b, List.length b = 13%nat /\ out (parse no_lz4 false mib b) = Panic /\ nth 0 b 0%N = 11%N) /\
-  (exists b, List.length b = 13%nat /\ out (parse no_lz4 false mib b) = Panic /\ nth 0 b 0%N = 27%N).
-Proof. exact zng_no_panic_refuted. Qed.
-Print Assumptions C11_zng_no_panic_refuted.
+(* No input, LZ4 behaviour or limit makes the reader panic. *)
+Theorem C11_zng_no_panic :
+  forall (lz4 : bytes -> Z -> option bytes) max b, out (zng_parse lz4 max b) <> Panic.
+Proof. exact zng_no_panic. Qed.
+Print Assumptions C11_zng_no_panic.
 
-(* What the code as it is does guarantee: the uncompressed frame path never
-   panics, for every header, input and limit ... *)
-Theorem C11_read_frame_no_panic_partial :
-  forall checked max code b, read_frame checked max code b <> RPanic.
-Proof. exact read_frame_no_panic. Qed.
-Print Assumptions C11_read_frame_no_panic_partial.
+(* Every run terminates with decoded values or an error: each loop of the
+   reader (frames, typedefs and their field / member / symbol loops, values)
+   consumes input on every iteration, so the explicit fuel of the model
+   (= input length + 1) is never what stops it, whatever counts (up to 2^63)
+   the input declares. *)
+Theorem C11_zng_values_or_error :
+  forall (lz4 : bytes -> Z -> option bytes) max b,
+    (exists n, out (zng_parse lz4 max b) = Ok n) \/
+    (exists e, out (zng_parse lz4 max b) = Err e /\ e <> EFuel).
+Proof. exact zng_total. Qed.
+Print Assumptions C11_zng_values_or_error.
 
-(* ... and no frame buffer exceeds the configured maximum (bounded allocation):
-   neither the payload of a plain frame nor the declared uncompressed size of
-   an LZ4 frame. *)
+Theorem C11_loops_progress :
+  (forall checked fuel nt k b, (List.length b < fuel)%nat -> values checked fuel nt k b <> RErr EFuel) /\
+  (forall checked fuel nt b, (List.length b < fuel)%nat -> typedefs checked fuel nt b <> RErr EFuel) /\
+  (forall lz4 checked max b, out (parse lz4 checked max b) <> Err EFuel).
+Proof. exact (conj values_fuel_enough (conj typedefs_fuel_enough parse_never_out_of_fuel)). Qed.
+Print Assumptions C11_loops_progress.
+
+(* Bounded allocation: no frame buffer exceeds the configured maximum
+   (ReaderOpts.Max): neither the payload of a plain frame nor the declared
+   uncompressed size of an LZ4 frame. *)
 Theorem C11_frame_alloc_bounded :
   (forall checked max code b p r, read_frame checked max code b = ROk (p, r) -> blen p <= max) /\
   (forall checked max code b fmt size z r,
@@ -34,34 +42,28 @@ Theorem C11_frame_alloc_bounded :
 Proof. exact (conj read_frame_bounded read_comp_header_bounded). Qed.
 Print Assumptions C11_frame_alloc_bounded.
 
-(* With readUvarintAsInt repaired (values >= 2^63 refused) NO input, LZ4
-   behaviour or limit makes the modelled reader panic: the three witnesses
-   above are the only kind of defect in the modelled code. *)
-Theorem C11_zng_no_panic_with_checked_uvarint :
-  forall (lz4 : bytes -> Z -> option bytes) max b, out (parse lz4 true max b) <> Panic.
-Proof. exact parse_fixed_no_panic. Qed.
-Print Assumptions C11_zng_no_panic_with_checked_uvarint.
+(* The theorem above rests on the range check of readUvarintAsInt (commit
+   729907a2c): the same reader without it ([checked = false]) panics on three
+   13-byte inputs, one per site the check protects (newBuffer(size<0),
+   buffer.read(n<0), MapperLookupCache.Lookup(id<0)); the code as it is
+   refuses them.  The harness feeds these inputs to the real reader on every
+   run (a regression of the check is an oracle failure). *)
+Theorem C11_uvarint_guard_necessary :
+  (exists b, List.length b = 13%nat /\ read_comp_header false mib 91 (tl b) = RPanic) /\
+  (exists b, List.length b = 13%nat /\ out (parse no_lz4 false mib b) = Panic /\ nth 0 b 0%N = 11%N) /\
+  (exists b, List.length b = 13%nat /\ out (parse no_lz4 false mib b) = Panic /\ nth 0 b 0%N = 27%N).
+Proof. exact uvarint_guard_necessary. Qed.
+Print Assumptions C11_uvarint_guard_necessary.
 
-(* Termination with progress: every loop of the reader (frames, typedefs and
-   their field / member / symbol loops, values) consumes input on each
-   iteration, so reading stops because the input is exhausted or an error is
-   found; the explicit fuel of the model (= input length + 1) is never what
-   stops it, for the code as it is and for the repaired one, whatever LZ4
-   returns and whatever counts (up to 2^63) the input declares. *)
-Theorem C11_reader_progress :
-  forall (lz4 : bytes -> Z -> option bytes) checked max b,
-    out (parse lz4 checked max b) <> Err EFuel.
-Proof. exact parse_never_out_of_fuel. Qed.
-Print Assumptions C11_reader_progress.
-
-Theorem C11_loops_progress :
-  (forall checked fuel nt k b, (List.length b < fuel)%nat -> values checked fuel nt k b <> RErr EFuel) /\
-  (forall checked fuel nt b, (List.length b < fuel)%nat -> typedefs checked fuel nt b <> RErr EFuel).
-Proof. exact (conj values_fuel_enough typedefs_fuel_enough). Qed.
-Print Assumptions C11_loops_progress.
+Theorem C11_witnesses_rejected :
+  out (zng_parse no_lz4 mib w_newbuffer) = Err EBadFormat /\
+  out (zng_parse no_lz4 mib w_bufread) = Err EBadFormat /\
+  out (zng_parse no_lz4 mib w_lookup) = Err EBadFormat.
+Proof. exact witnesses_rejected. Qed.
+Print Assumptions C11_witnesses_rejected.
 
 (* Non-vacuity: the model decodes a valid stream (one typedef {a:int64}, two
    values of it) and reports 2 values. *)
 Example C11_model_reads_valid_stream :
-  out (parse no_lz4 false mib (hex "05000001016109" ++ hex "18001e0302021e030204")) = Ok 2%N.
+  out (zng_parse no_lz4 mib (hex "05000001016109" ++ hex "18001e0302021e030204")) = Ok 2%N.
 Proof. vm_compute. reflexivity. Qed.
